@@ -2,7 +2,7 @@
     bridge theorem. *)
 From V.Lib Require Import Base Hex.
 From V.Gen Require Import C11Consts C11Legacy.
-From V.C11 Require Import Model Spec Tab Eqb EqbFacts Legacy CorrLegacy Gap CorrGap Corr Wf
+From V.C11 Require Import Model Spec Tab Eqb EqbFacts Legacy CorrLegacy Gap CorrGap Extra CorrExtra Corr Wf
   ProofsAddr ProofsCodec ProofsDecode ProofsFind ProofsLegacy ProofsGap Bridge BridgeA.
 From Coq Require Import ZifyBool.
 Local Open Scope N_scope.
@@ -397,22 +397,3 @@ Proof.
       destruct (scope =? 2); [discriminate|]. reflexivity.
 Qed.
 
-(* ------------------------------------------------------------------------------------------ *)
-(** * the complete bridge *)
-
-Theorem agree_implies_property c :
-  wf_case c = true -> known_class c = 0 -> run_case c = true -> prop_case c = true.
-Proof.
-  intros W K R. destruct (bridged c) eqn:B.
-  - exact (agree_implies_property_partial c B W K R).
-  - destruct c; try discriminate B.
-    + exact (b_usk_decode _ _ _ _ W R).
-    + exact (b_ufvk_encode _ _ _ W R).
-    + exact (b_ufvk_decode _ _ _ _ _ W R).
-    + exact (b_uivk_encode _ _ _ W R).
-    + exact (b_uivk_decode _ _ _ _ _ W R).
-    + exact (b_find _ _ _ _ _ W R).
-    + exact R.
-    + exact (b_legacy _ W R).
-    + exact (b_gap _ W R).
-Qed.
